@@ -608,9 +608,13 @@ JointDup(P, Q, ms) ==
               /\ t1 # t2 /\ HasTax(Q, t1) /\ HasTax(Q, t2)
               /\ LabEq(Q.ns[ms[i].Y].cs, Q.labels[t1], Q.labels[t2])
               /\ ~(t1 \in NsMem(P, ms[i].Y) /\ t2 \in NsMem(P, ms[i].Y))
-LFAll(P, a, x, raised, Q) ==
+\* for the composite clear+reconstruct the namespace the references are carried into is the CLEARED one: what was a
+\* member before clear() is not an "existing member" that label unification would have to reuse
+LFPre(P, a, x) == IF a = "TLClearReconstruct" /\ HasList(P, x.l) THEN ClearNs(P, P.lists[x.l].ns) ELSE P
+LFAll(P0, a, x, raised, Q) ==
     IF raised # "" THEN {}
-    ELSE LET ms == Moves(P, a, x, Q) IN
+    ELSE LET P == LFPre(P0, a, x)
+             ms == Moves(P0, a, x, Q) IN
          ({LFClause(P, Q, ms[i]) : i \in 1..Len(ms)} \ {""})
          \cup (IF JointDup(P, Q, ms) THEN {"equal-labels-duplicated-across-members"} ELSE {})
 \* TreeArray keeps no tree objects: its closure is decided when a tree is accessioned
